@@ -356,6 +356,8 @@ def build_graph(g, env, is_async=False):
                         if t != "END" and not any(e[0] == n["name"] and e[1] == t for e in edges):
                             edges.append((n["name"], t))
         G = Graph(nodes, edges=edges, name=g.get("name"))
+    if g.get("pre_use") and not is_async:
+        _pre_use(G, env)
     if g.get("bound"):
         G = G.bind(**g["bound"])
     if g.get("entrypoints"):
@@ -363,6 +365,27 @@ def build_graph(g, env, is_async=False):
     if g.get("selected") is not None:
         G = G.select(*g["selected"])
     return G
+
+
+def _pre_use(G, env):
+    """Use the base graph object the way a program would before deriving from it: read its cached
+    properties and execute it once (fills every per-object cache), then forget the calls it made."""
+    import warnings as _w
+    from hypergraph import SyncRunner
+
+    try:
+        spec = G.inputs
+        vals = {x: 0 for x in spec.required}
+        for ps in spec.entrypoints.values():
+            for x in ps:
+                vals[x] = 0
+        G.definition_hash, G.controlled_by, G.self_producers
+        with _w.catch_warnings():
+            _w.simplefilter("ignore")
+            SyncRunner().run(G, vals, error_handling="continue", max_iterations=8)
+    except Exception:  # noqa: BLE001
+        pass
+    env["_log"].clear()
 
 
 def run_real(g, run, rank=None):
